@@ -656,7 +656,8 @@ pub fn run(a: &Args, rep: &mut Report) {
             rep.sample(J::obj(vec![("kind", J::s("constructor-input")), ("x", J::hex(x)), ("class", J::s(c))]));
         }
     }
-    let progs = a.budget(60_000, 12_000_000);
+    // `--progs N` overrides the number of programs (the interpreted slices spend their small budget here)
+    let progs = a.get_u64("progs", a.budget(60_000, 12_000_000));
     for _ in 0..progs {
         let len = 5 + r.below(46) as usize;
         program(rep, &mut r, len);
